@@ -1,7 +1,7 @@
 (* Props_C01.v — the property theorems for C01 and nothing else.
    C01: "Point reads return the latest write, whatever the tree did in between". *)
 From Coq Require Import NArith List.
-From Blue Require Import Gen.Const_Lsm Lsm.Model Lsm.LoadProofs Lsm.Ordered Lsm.CompactProofs Lsm.GcProofs Lsm.History.
+From Blue Require Import Gen.Const_Lsm Lsm.Model Lsm.LoadProofs Lsm.Ordered Lsm.CompactProofs Lsm.GcProofs Lsm.WfProofs Lsm.History.
 Import ListNotations.
 Open Scope N_scope.
 
@@ -46,6 +46,16 @@ Theorem C01_gc_preserves_reads : forall s c outs k, wf_version (ver s) -> Ordere
   desc_ts (kview (compact s c outs) k) /\
   (forall e, In e (kview (compact s c outs) k) -> In e (kview s k)).
 Proof. exact gc_preserves_reads. Qed.
+
+(* Admissible compactions and garbage collections produce well-formed levels (non-empty strictly
+   sorted files; key-ordered levels whose neighbours share at most a boundary key). *)
+Theorem C01_compaction_keeps_levels_well_formed : forall s c outs, wf_version (ver s) -> Ordered s ->
+  valid_compactionb (ver s) c = true ->
+  (outputs_okb (ver s) c outs = true \/ gc_outputs_okb (ver s) c outs = true) ->
+  wf_versionb (apply_compaction (ver s) c outs) = true.
+Proof.
+  intros s c outs Hw Ho Hv [H|H]; [exact (compaction_wf s c outs Hw Ho Hv H)|exact (gc_wf s c outs Hw Ho Hv H)].
+Qed.
 
 (* every reachable state satisfies the invariant (well-formed levels, Ordered, timestamps bounded
    by the sequence counter, memtable newer than files) *)
